@@ -286,8 +286,11 @@ func (m *Transport) TxBytesCounterValue() uint64 {
 
 // Write implements Transport.
 func (m *Transport) Write(bs []byte) error {
+	// the lock covers the selection only: a write that stalls in its member (back pressure) must not keep a new
+	// selection, and with it every later call, waiting
 	m.mu.RLock()
-	defer m.mu.RUnlock()
+	t := m.transportMap[m.currentTransportID]
+	m.mu.RUnlock()
 	// close when timeout
-	return m.transportMap[m.currentTransportID].Write(bs)
+	return t.Write(bs)
 }
